@@ -41,8 +41,17 @@ def run(ctx):
     if ctx.quick():
         metas.append(_drive(ctx, binary, "random", 60, 60, 7))
     else:
-        metas.append(_drive(ctx, binary, "random", 300, 70, 7))
-        metas.append(_drive(ctx, binary, "deep", 150, 120, 12, seed_offset=7919))
+        metas.append(_drive(ctx, binary, "random", 450, 70, 7))
+        metas.append(_drive(ctx, binary, "deep", 220, 120, 12, seed_offset=7919))
+    ctx.assumptions += [
+        "one goroutine drives each scenario: a directory is never loaded by two callers at once",
+        "case-sensitive component normalizer, no hidden-files pattern (bb_worker defaults)",
+        "symlink targets are in the canonical form path.Resolve produces (REv2 requires canonical targets)",
+        "an injected storage error excuses the failure of the operation it was injected into, nothing else",
+        "incomplete Tree objects are generated only without CachingDirectoryFetcher (the cache may legitimately "
+        "serve a child that is missing from the Tree but known by digest)",
+        "native build directories (naiveBuildDirectory / HardlinkingFileFetcher) are out of scope",
+    ]
     return vlib.finish(
         ctx,
         rule="TLC explores the reference model exhaustively (4+ Directory messages forming a DAG, depth 3, malformed/missing/"
